@@ -22,8 +22,14 @@
      "edit"   C19: one in-place edit of one copy: text of the other copy and of the
               Gfa before / after.
      "val"    C20: one Python value assigned to a new tag or to a tag of a declared
-              datatype: datatype, written characters, validation, read back.   *)
+              datatype: datatype, written characters, validation, read back.
+     "table"  one string representative of the C18 value-class table, judged
+              by Lex.tla.                                                     *)
 EXTENDS Fields, Json, IOUtils, TLC
+
+\* the full lexical grammar (written by the lexical family from the GFA specification
+\* texts; three-valued: "acc" / "rej" / "either" where the documents disagree)
+LX == INSTANCE Lex
 
 Data  == JsonDeserialize(IOEnv.TRACE_FILE)
 Kind  == Data.kind
@@ -121,23 +127,33 @@ EditVerdict(c) ==
 -----------------------------------------------------------------------------
 (* kind "val" *)
 ValDTs(c) == IF c.mode = "new" THEN DefaultDTs(c.v) ELSE {c.mode}
-ValVerdict(c) ==
+\* Can datatype d represent the value?  "yes" / "no" / "either".  For an encoded (string)
+\* value the answer of Fields!Representable is confronted with the full grammar of Lex.tla:
+\* where that grammar is undecided, or the two disagree, no side is taken.
+RepStatus(d, v) ==
+  LET mine == Representable(d, v) IN
+  IF v.k # "str" THEN (IF mine THEN "yes" ELSE "no")
+  ELSE LET lx == LX!FieldVerdict(d, v.chars) IN
+       IF lx = "acc" /\ mine THEN "yes"
+       ELSE IF lx = "rej" /\ ~mine THEN "no"
+       ELSE "either"
+ValVerdictAs(c, d, dts, rep) ==
   LET v == c.v
-      dts == ValDTs(c)
-      d == IF c.dt \in dts THEN c.dt ELSE CHOOSE x \in dts : TRUE
-      rep == Representable(d, v)
       wv == TagValueOf(c.wchars) IN
-  IF ~(\A x \in dts : InScope(x, v)) THEN {"machinery.scope"}
-  ELSE IF "FOREIGN" \in {c.set, c.val, c.vf, c.w, c.s, c.rb.res} \/ c.dt = "!FOREIGN" THEN {"foreign"}
-  ELSE IF c.set = "Error" THEN
+  IF c.set = "Error" THEN
        \* refused at the assignment: fine unless the datatype can represent the value
-       (IF \A x \in dts : Representable(x, v) THEN {"C20.readback"} ELSE {})
+       (IF rep THEN {"C20.readback"} ELSE {})
   ELSE
     (IF c.dt \notin dts THEN {"C20.datatype"} ELSE {})
     \cup
     (IF rep THEN
         (IF c.val # "ok" \/ c.vf # "ok" \/ c.w # "ok" \/ c.s # "ok" \/ c.mark THEN {"C20.readback"} ELSE {})
-        \cup (IF c.w = "ok" /\ ~(TagShape(c.wchars) /\ Accepts(d, wv)) THEN {"C20.grammar"} ELSE {})
+        \* the written characters: accepted by the recogniser of Fields.tla and not rejected by
+        \* the full grammar (where that one is undecided, its indecision stands)
+        \cup (IF c.w = "ok" /\ ~(TagShape(c.wchars) /\
+                               LET lx == LX!FieldVerdict(d, wv) IN
+                               lx = "either" \/ (lx = "acc" /\ Accepts(d, wv)))
+              THEN {"C20.grammar"} ELSE {})
         \cup (IF c.w = "ok" /\ TagShape(c.wchars) /\ TagTypeOf(c.wchars) \notin dts THEN {"C20.datatype"} ELSE {})
         \cup (IF c.w = "ok" /\ TagShape(c.wchars) /\ d = "B" /\ v.k # "str"
                  /\ WrittenSubtype(wv) \notin ExpectedSubtypes(v) THEN {"C20.subtype"} ELSE {})
@@ -148,6 +164,29 @@ ValVerdict(c) ==
         \* and by writing at level >= 2
         (IF c.val = "ok" \/ c.vf = "ok" THEN {"C20.unrepresentable-emitted"} ELSE {})
         \cup (IF c.lvl >= 2 /\ (c.w = "ok" \/ (c.s = "ok" /\ ~c.mark)) THEN {"C20.unrepresentable-emitted"} ELSE {}))
+ValVerdict(c) ==
+  LET v == c.v
+      dts == ValDTs(c)
+      d == IF c.dt \in dts THEN c.dt ELSE CHOOSE x \in dts : TRUE
+      st == RepStatus(d, v) IN
+  IF ~(\A x \in dts : InScope(x, v)) THEN {"machinery.scope"}
+  ELSE IF "FOREIGN" \in {c.set, c.val, c.vf, c.w, c.s, c.rb.res} \/ c.dt = "!FOREIGN" THEN {"foreign"}
+  ELSE IF st = "yes" THEN ValVerdictAs(c, d, dts, TRUE)
+  ELSE IF st = "no" THEN ValVerdictAs(c, d, dts, FALSE)
+  ELSE \* undecided: gfapy must be consistent with ONE of the two readings
+       LET a == ValVerdictAs(c, d, dts, TRUE)
+           b == ValVerdictAs(c, d, dts, FALSE) IN
+       IF a = {} \/ b = {} THEN {} ELSE a \cup b
+
+-----------------------------------------------------------------------------
+(* kind "table": the value-class table of the harness (string representatives of the C18
+   fields) against the full grammar: a "valid" string must not be rejected by Lex.tla, an
+   invalid one must not be accepted.                                          *)
+TableVerdict(c) ==
+  LET lx == LX!FieldVerdict(c.dt, c.chars) IN
+  IF c.cls = "valid" /\ lx # "acc" THEN {"table.valid-not-accepted-by-Lex"}
+  ELSE IF c.cls # "valid" /\ lx # "rej" THEN {"table.invalid-not-rejected-by-Lex"}
+  ELSE {}
 
 -----------------------------------------------------------------------------
 Verdict(c) ==
@@ -156,6 +195,7 @@ Verdict(c) ==
     [] Kind = "clone" -> CloneVerdict(c)
     [] Kind = "edit" -> EditVerdict(c)
     [] Kind = "val" -> ValVerdict(c)
+    [] Kind = "table" -> TableVerdict(c)
 Where(c) == IF Kind = "prog" THEN ProgAt(c, 1, {ProgInit(c)}) ELSE 0
 
 Init == cid \in 1..Len(Cases)
